@@ -1552,7 +1552,12 @@ def remove_redundant_transpose_pairs_ir(graph: ir.Graph) -> None:
                 for idx, iv in enumerate(ins):
                     if iv in trans_in_map:
                         node.replace_input_with(idx, trans_in_map[iv])
-                _refresh_elementwise_output_shape(node)
+            # Refresh shapes in graph order (producers first): iterating the set
+            # made the result depend on hash order and could leave a consumer
+            # with the shape of a not-yet-refreshed producer.
+            for node in nodes:
+                if node in elem_nodes:
+                    _refresh_elementwise_output_shape(node)
 
             # Remove inverse transposes on outputs of the DAG.
             for t_out_node in output_transposes:
